@@ -130,14 +130,24 @@ func filter(pool []string, ok func(string) bool) []string {
 	return out
 }
 
-func (s *gScope) visVars() []string  { return filter(varPool, func(n string) bool { return s.findVar(n) != nil }) }
-func (s *gScope) invisVars() []string { return filter(varPool, func(n string) bool { return s.findVar(n) == nil }) }
+func (s *gScope) visVars() []string {
+	return filter(varPool, func(n string) bool { return s.findVar(n) != nil })
+}
+func (s *gScope) invisVars() []string {
+	return filter(varPool, func(n string) bool { return s.findVar(n) == nil })
+}
 func (s *gScope) setVars() []string {
 	return filter(varPool, func(n string) bool { v := s.findVar(n); return v != nil && !v.protected })
 }
-func (s *gScope) visCurs() []string { return filter(curPool, func(n string) bool { return s.findCur(n) != nil }) }
-func (s *gScope) visTabs() []string { return filter(tabPool, func(n string) bool { return s.findTab(n) }) }
-func (s *gScope) visFuns() []string { return filter(funPool, func(n string) bool { return s.findFun(n) }) }
+func (s *gScope) visCurs() []string {
+	return filter(curPool, func(n string) bool { return s.findCur(n) != nil })
+}
+func (s *gScope) visTabs() []string {
+	return filter(tabPool, func(n string) bool { return s.findTab(n) })
+}
+func (s *gScope) visFuns() []string {
+	return filter(funPool, func(n string) bool { return s.findFun(n) })
+}
 
 type gen struct {
 	t       *rapid.T
@@ -161,8 +171,8 @@ func (g *gen) wantError() bool {
 	return g.chance("inject", 25)
 }
 
-func lit(n int64) *ref.PExpr        { return &ref.PExpr{K: "lit", N: n} }
-func varE(n string) *ref.PExpr      { return &ref.PExpr{K: "var", Name: n} }
+func lit(n int64) *ref.PExpr   { return &ref.PExpr{K: "lit", N: n} }
+func varE(n string) *ref.PExpr { return &ref.PExpr{K: "var", Name: n} }
 func bin(op string, a, b *ref.PExpr) *ref.PExpr {
 	return &ref.PExpr{K: "bin", Op: op, A: a, B: b}
 }
@@ -278,6 +288,12 @@ func (g *gen) printVisible(sc *gScope, out []ref.PStmt) []ref.PStmt {
 			if sc.findCur(c).open && g.chance("obsCount", 60) {
 				out = append(out, g.printStmt(&ref.PExpr{K: "ccount", Name: c}))
 			}
+			if sc.findCur(c).open && g.chance("obsRange", 40) {
+				out = append(out, ref.PStmt{ID: g.id(), K: "printrange", Name: c})
+			}
+			if sc.findCur(c).open && g.chance("obsFetch", 45) {
+				out = append(out, g.fetch(sc, c, "")...)
+			}
 		}
 	}
 	if g.chance("obsTab", 40) {
@@ -317,6 +333,13 @@ func (g *gen) block(sc *gScope, lo, hi int) []ref.PStmt {
 					o.Name = d.Name
 					sc.curs[d.Name].open = true
 					out = append(out, o)
+					if g.chance("fetchInner", 50) {
+						out = append(out, g.fetch(sc, d.Name, "")...)
+					}
+				} else if !g.errDone && (g.wantError() || g.chance("closedShadow", 12)) {
+					// the inner cursor is closed while the outer one of the same name may be open
+					g.errDone = true
+					out = append(out, g.useClosed(sc, d.Name)...)
 				}
 			}
 		}
@@ -588,7 +611,7 @@ func (g *gen) cursorDecl(sc *gScope) (ref.PStmt, bool) {
 	if tabs := sc.visTabs(); len(tabs) > 0 && g.chance("overTable", 40) {
 		s.Table = fw.Pick(g.t, "ctab", tabs)
 	} else {
-		n := g.intn("crows", 1, 3)
+		n := g.intn("crows", 1, 5)
 		for i := 0; i < n; i++ {
 			s.Rows = append(s.Rows, int64(g.intn("crow", 0, 9)))
 		}
@@ -601,11 +624,29 @@ func (g *gen) cursorStmt(sc *gScope) []ref.PStmt {
 	vis := sc.visCurs()
 	w := g.intn("cuk", 0, 99)
 	if g.wantError() {
+		var closed []string
+		for _, n := range vis {
+			if !sc.findCur(n).open {
+				closed = append(closed, n)
+			}
+		}
+		if len(closed) > 0 && g.chance("useClosed", 60) {
+			g.errDone = true
+			return g.useClosed(sc, fw.Pick(g.t, "clname", closed))
+		}
 		inv := filter(curPool, func(n string) bool { return sc.findCur(n) == nil })
 		if len(inv) > 0 {
 			g.errDone = true
-			s := g.stmt(fw.Pick(g.t, "ucur", []string{"open", "close", "printopen"}))
+			s := g.stmt(fw.Pick(g.t, "ucur", []string{"open", "close", "printopen", "printrange", "dispose", "fetch"}))
 			s.Name = fw.Pick(g.t, "ucname", inv)
+			if s.K == "fetch" {
+				tg := sc.setVars()
+				if len(tg) == 0 {
+					s.K = "dispose"
+				} else {
+					s.Var = fw.Pick(g.t, "fvar", tg)
+				}
+			}
 			return []ref.PStmt{s}
 		}
 		var here []string
@@ -642,7 +683,7 @@ func (g *gen) cursorStmt(sc *gScope) []ref.PStmt {
 	name := fw.Pick(g.t, "cur", vis)
 	c := sc.findCur(name)
 	switch {
-	case w < 50:
+	case w < 45:
 		k := "open"
 		if c.open {
 			k = "close"
@@ -654,25 +695,130 @@ func (g *gen) cursorStmt(sc *gScope) []ref.PStmt {
 		s.Name = name
 		c.open = k == "open"
 		return []ref.PStmt{s}
-	case w < 62:
+	case w < 50:
 		if g.noPrint {
 			return []ref.PStmt{g.fallback(sc)}
 		}
 		s := g.stmt("printopen")
 		s.Name = name
 		return []ref.PStmt{s}
-	case w < 72:
+	case w < 55:
 		if g.noPrint || !c.open {
 			return []ref.PStmt{g.fallback(sc)}
 		}
 		g.count++
 		return []ref.PStmt{g.printStmt(&ref.PExpr{K: "ccount", Name: name})}
+	case w < 60:
+		if g.noPrint || !c.open {
+			return []ref.PStmt{g.fallback(sc)}
+		}
+		s := g.stmt("printrange")
+		s.Name = name
+		return []ref.PStmt{s}
+	case w < 67:
+		s := g.stmt("dispose")
+		s.Name = name
+		for x := sc; x != nil; x = x.parent {
+			if _, ok := x.curs[name]; ok {
+				delete(x.curs, name)
+				break
+			}
+			if x.boundary {
+				break
+			}
+		}
+		return []ref.PStmt{s}
+	case w < 86:
+		var out []ref.PStmt
+		if !c.open {
+			o := g.stmt("open")
+			o.Name = name
+			c.open = true
+			out = append(out, o)
+		}
+		pos := fw.Pick(g.t, "fpos", []string{"", "", "", "NEXT", "NEXT", "PRIOR", "FIRST", "LAST", "ABSOLUTE", "RELATIVE"})
+		n := g.intn("fetches", 1, 2)
+		for i := 0; i < n; i++ {
+			out = append(out, g.fetch(sc, name, pos)...)
+			pos = ""
+		}
+		return out
 	default:
 		if sc.depth >= maxBlockDepth {
 			return []ref.PStmt{g.fallback(sc)}
 		}
 		return g.whileIn(sc, name)
 	}
+}
+
+// fetch: FETCH [pos] cursor INTO @v, then most of the time an observation of
+// the fetched value guarded by IS IN RANGE (the variables of a fetch that finds
+// no record are not predicted).
+func (g *gen) fetch(sc *gScope, name, pos string) []ref.PStmt {
+	tg := sc.setVars()
+	if len(tg) == 0 {
+		return nil
+	}
+	s := g.stmt("fetch")
+	s.Name, s.Pos, s.Var = name, pos, fw.Pick(g.t, "fvar", tg)
+	switch pos {
+	case "ABSOLUTE":
+		s.N = int64(g.intn("fabs", 0, 4))
+	case "RELATIVE":
+		s.N = int64(g.intn("frel", -2, 2))
+	}
+	if g.wantError() && g.chance("fetchLen", 30) {
+		g.errDone = true
+		s.Var2 = fw.Pick(g.t, "fvar2", tg)
+	}
+	out := []ref.PStmt{s}
+	if g.noPrint {
+		return out
+	}
+	switch w := g.intn("fobs", 0, 99); {
+	case w < 65:
+		i := ref.PStmt{ID: g.id(), K: "if", Form: "if", Conds: []ref.PCond{{K: "curinrange", Name: name}}}
+		i.Blocks = [][]ref.PStmt{{g.printStmt(varE(s.Var))}}
+		if g.chance("elseRange", 70) {
+			// no record: give the variable a known value again
+			i.HasElse = true
+			i.Else = []ref.PStmt{{ID: g.id(), K: "set", Name: s.Var, E: lit(int64(g.intn("lit", 0, 9)))}}
+		}
+		out = append(out, i)
+	case w < 80:
+		out = append(out, ref.PStmt{ID: g.id(), K: "printrange", Name: name})
+	case w < 88:
+		out = append(out, g.printStmt(varE(s.Var)))
+	}
+	return out
+}
+
+// useClosed: a cursor that is visible but (as far as the generator tracks)
+// closed is fetched from / asked for its status: "cursor is closed" expected.
+func (g *gen) useClosed(sc *gScope, name string) []ref.PStmt {
+	tg := sc.setVars()
+	k := fw.Pick(g.t, "closedUse", []string{"fetch", "fetch", "fetch", "printrange", "ccount", "whilein"})
+	if (k == "fetch" && len(tg) == 0) || (g.noPrint && (k == "printrange" || k == "ccount")) {
+		k = "whilein"
+	}
+	switch k {
+	case "fetch":
+		s := g.stmt("fetch")
+		s.Name, s.Var = name, fw.Pick(g.t, "fvar", tg)
+		s.Pos = fw.Pick(g.t, "fpos", []string{"", "NEXT", "FIRST", "LAST"})
+		return []ref.PStmt{s}
+	case "printrange":
+		s := g.stmt("printrange")
+		s.Name = name
+		return []ref.PStmt{s}
+	case "ccount":
+		g.count++
+		return []ref.PStmt{g.printStmt(&ref.PExpr{K: "ccount", Name: name})}
+	}
+	s := g.stmt("whilein")
+	s.Name, s.Decl, s.Var = name, "VAR", fw.Pick(g.t, "wvar", varPool)
+	s.Body = []ref.PStmt{g.fallback(sc)}
+	return []ref.PStmt{s}
 }
 
 // whileIn: [OPEN] WHILE [VAR] @v IN cursor DO ... END WHILE [reset of the fetch variable] [CLOSE]
@@ -1001,6 +1147,7 @@ var errClassNames = map[string]string{
 	"E1/11002":  ref.PErrUndeclCur,
 	"E1/11003":  ref.PErrCurClosed,
 	"E1/11004":  ref.PErrCurOpen,
+	"E1/11007":  ref.PErrFetchLength,
 	"E1/11501":  ref.PErrRedeclTable,
 	"E16/90181": ref.PErrUndeclTable, // a table name that is not a temporary table falls through to the file system
 }
@@ -1142,7 +1289,7 @@ func shape(prog []ref.PStmt) string {
 		}
 		b.WriteString(s.K[:2])
 		switch s.K {
-		case "var", "set", "func", "table", "cursor", "insert", "open", "close", "whilein":
+		case "var", "set", "func", "table", "cursor", "insert", "open", "close", "whilein", "fetch", "dispose":
 			if !strings.HasPrefix(s.Name, "k") && !strings.HasPrefix(s.Name, "n") && !strings.HasPrefix(s.Name, "z") {
 				b.WriteString(s.Name)
 			}
@@ -1196,12 +1343,13 @@ func checkProg(c progCase) (fw.Outcome, *fw.Violation) {
 
 func TestC15Procedure(t *testing.T) {
 	fw.Run(t, fw.Spec[progCase]{
-		ID: "C15", Name: "procedure", Quick: 100000, Thorough: 2000000,
+		ID: "C15", Name: "procedure", Quick: 80000, Thorough: 1600000,
 		Gen: genProg, Check: checkProg,
-		Rule: "procedures of <=40 statements, block depth <=5, nesting IF/ELSEIF/ELSE, CASE (both forms), counter-bounded WHILE, WHILE..IN cursor loops, BREAK/CONTINUE/RETURN/EXIT, (nested, recursive factorial/fibonacci-shaped) scalar functions and calls, with variables, cursors, temporary tables and functions (re)declared under names from 3-name pools at every level; executed in-process and compared (PRINT lines, terminating error class, EXIT flow) with an environment-stack reference interpreter; non-trivial = an outer object is used again after the block that shadowed it ended, or a recursion depth >= 2; distinct by block tree + name pattern",
+		Rule: "procedures of <=40 statements, block depth <=5, nesting IF/ELSEIF/ELSE, CASE (both forms), counter-bounded WHILE, WHILE..IN cursor loops, OPEN/CLOSE/FETCH (all positions)/DISPOSE CURSOR and the cursor status expressions at any depth, BREAK/CONTINUE/RETURN/EXIT, (nested, recursive factorial/fibonacci-shaped) scalar functions and calls, with variables, cursors, temporary tables and functions (re)declared under names from 3-name pools at every level; executed in-process and compared (PRINT lines, terminating error class, EXIT flow) with an environment-stack reference interpreter; non-trivial = an outer object is used again after the block that shadowed it ended, or a recursion depth >= 2; distinct by block tree + name pattern",
 		Assumptions: []string{
 			"function bodies use only parameters, locals and lexically visible functions; any name that resolves differently under lexical and dynamic (caller chain) scoping discards the case",
 			"outcomes that depend on an undocumented evaluation order (two errors in one statement, an error beside a function call with side effects, CLOSE of a closed cursor, the variable left by the failing fetch of WHILE..IN) are discarded or overwritten",
+			"a FETCH that finds no record leaves its variables unpredicted (NULL by the manual, unchanged in csvq): reading them before re-assignment discards the case; a relative FETCH after the pointer was sent more than one position out of range is discarded (resting position undocumented)",
 			"values are integers and NULL with magnitude <= 2^40; calls deeper than 12 and runs longer than 4000 steps are discarded",
 			"avoidKnownTempTableShadow=true: executed temporary-table declarations that would shadow an outer table are removed by the generator (finding temp_table_shadow_redeclared)",
 		},
